@@ -4,6 +4,7 @@ Well-formedness: member hosts are pairwise distinct (GetByHost returns an arbitr
 members sharing a host).
 -/
 import HW.Proofs.Cluster
+import HW.Proofs.ClusterHist
 namespace HW.C20
 open HW.Cluster
 
@@ -36,6 +37,34 @@ theorem leave_member_only (st : ProvSt) (addr : String) (m : Member) (h : idsNod
 theorem leave_nonmember_noop (st : ProvSt) (addr : String) (h : ∀ m ∈ st.members, m.host ≠ addr) :
     provLeave st addr = (st, []) :=
   prov_leave_nonmember st addr h
+
+/-! ### every sequence of handshakes, member lists and unreachable reports (the property's quantifier) -/
+
+/-- REFINEMENT: for all histories, in any order, with repeated and non-member reports, the provider's member list is
+    (as a set of ids, duplicate free) exactly what the abstract set semantics `specRun` computes: a handshake adds the
+    peer, a list adds all of it, an unreachable report removes the member at that address and only that one, a report
+    for a non-member address removes nothing. Well-formedness: each member id has one address (`hostOf`), distinct ids
+    have distinct addresses. -/
+theorem history_refines_set_semantics (hostOf : String → String) (hinj : ∀ a b, hostOf a = hostOf b → a = b)
+    (st : ProvSt) (h : idsNodup st.members) (hst : ∀ m ∈ st.members, m.host = hostOf m.id)
+    (ops : List ProvOp) (hops : ∀ op ∈ ops, opWf hostOf op) :
+    idsNodup (provRun st ops).members ∧
+    (∀ m ∈ (provRun st ops).members, m.host = hostOf m.id) ∧
+    (∀ id, id ∈ ids (provRun st ops).members ↔ id ∈ specRun hostOf (ids st.members) ops) :=
+  provRun_refines hostOf hinj st h hst ops hops
+
+/-- every handled message reports the then-current list to the agent; only a non-member unreachable report is silent. -/
+theorem every_step_reports (st : ProvSt) (op : ProvOp) :
+    (provStep st op).2 = [] ∨ ProvOut.agent (ids (provStep st op).1.members) ∈ (provStep st op).2 :=
+  provStep_reports st op
+
+/-- non-vacuity of the refinement: join B, join C, B fails, B rejoins, B fails again, a report for a stranger. -/
+example :
+    let mk (id : String) : Member := ⟨id, "h" ++ id ++ ":1", ["k1"]⟩
+    let ops : List ProvOp := [.handshake (mk "B"), .members [mk "C"], .leave "hB:1", .handshake (mk "B"), .leave "hB:1", .leave "hZ:1"]
+    ids (provRun { members := [mk "A"] } ops).members = ["A", "C"] ∧
+    specRun (fun id => "h" ++ id ++ ":1") ["A"] ops = ["A", "C"] := by
+  decide
 
 example :
     let a : Member := ⟨"A", "hA:1", ["k1"]⟩
